@@ -592,6 +592,14 @@ pub fn run_sizes(ctx: &mut Ctx) -> R {
     cfg.offset = 0;
     cfg.tags = 0;
     cfg.seek = *ch.pick("sz.seek", &[SeekPolicy::Off, SeekPolicy::Frames(1)]);
+    // the sample rate from the neighbourhood of every way of coding it in a frame header: the eleven
+    // table rates +-1 and +-10, the limits of the 8-bit kHz, 16-bit Hz and 16-bit tens-of-Hz fields
+    {
+        const RT: &[u32] = &[88200, 176400, 192000, 8000, 16000, 22050, 24000, 32000, 44100, 48000, 96000, 255000, 65535, 655350, 1000, 10, 1048575];
+        let t = *ch.pick("sz.rate.table", RT) as i64;
+        let d = *ch.pick("sz.rate.delta", &[0i64, 0, 1, -1, 10, -10, 1000, -1000, 5]);
+        cfg.rate = (t + d).clamp(1, 1048575) as u32;
+    }
     // mode 0: the size is the stream's block size; mode 1: it is the length of the final frame of a
     // stream with a larger block size
     let mode = ch.draw("sz.mode", 5) % 3;
